@@ -184,10 +184,57 @@ def run(ctx, rep):
                 if "pack" in sl["fields"]:
                     ins += 1
     rep.check("C05.c", "used-packs-recorded", gets >= 2 and ins >= gets, where=CT.loc(), what=f"check_trees records entry.pack for every index lookup it resolves ({gets} lookups, {ins} pack insertions)")
+    # every file node's chunks and every directory's subtree are looked up: the lookups depend on nothing but the node
+    # kind, the loop over nodes/chunks and the presence of the content/subtree itself
+    from rules.C18 import cd_conditions
+
+    def allowed(e):
+        x = e
+        while x[0] == "un" and x[1] == "Not":
+            x = x[2]
+        txt = repr(x)
+        if x[0] == "discr":
+            return any(k in txt for k in ("node_type", "Iterator>::next", "iter::Iterator::next", "ops::Try>::branch", "subtree", "content", "transpose", "Enumerate", "get_data", "get_tree"))
+        if x[0] == "call" and re.search(r"::is_null$|::is_none$|::is_some$", x[1]):
+            return True
+        return False
+
+    for f in fam:
+        for bb, t in f.calls():
+            if "callee" in t and re.search(r"ReadIndex(>)?::get_(data|tree)$", callee(t) + " " + callee_decl(t)):
+                kind = "data" if re.search(r"get_data$", callee(t) + " " + callee_decl(t)) else "tree"
+                chain = [(f, bb)]
+                # if the lookup sits in a closure, continue with the site in check_trees that consumes the closure
+                cur = f
+                extra = []
+                hops = 0
+                while cur is not None and hops < 4:
+                    site = chain[-1][1]
+                    extra += [(cur, c) for c in cd_conditions(cur, site)]
+                    if not cur.is_closure():
+                        break
+                    parent = prog.bodies.get(cur.parent) if getattr(cur, "parent", None) else None
+                    if parent is None:
+                        parents = [g for g in fam if any(s_[0] == "=" and s_[2][0] == "agg" and s_[2][1][0] == "closure" and s_[2][1][1] == cur.path for blk in g.blocks for s_ in blk["s"])]
+                        parent = parents[0] if parents else None
+                    if parent is None:
+                        break
+                    cl_locals = [s_[1][0] for blk in parent.blocks for s_ in blk["s"] if s_[0] == "=" and s_[2][0] == "agg" and s_[2][1][0] == "closure" and s_[2][1][1] == cur.path]
+                    cons_sites = [cb for cb, ct in parent.calls() if any(op_local(a) in cl_locals for a in ct["args"])]
+                    if not cons_sites:
+                        break
+                    chain.append((parent, cons_sites[0]))
+                    cur = parent
+                    hops += 1
+                bad = [(g, c) for (g, c) in extra if not allowed(c[0])]
+                rep.check("C05.c", f"lookup-unconditional/{kind}", not bad, where=where(f, bb),
+                          what=f"check_trees looks up every {'chunk of every file node' if kind == 'data' else 'subtree of every directory node'} (the lookup depends only on the node kind and the presence of the {'content' if kind == 'data' else 'subtree'})" if not bad else
+                               f"check_trees skips the index lookup of {'file chunks' if kind == 'data' else 'subtrees'} under an extra condition ({[str(c[0])[:90] for g, c in bad][:2]}): blobs of such nodes are neither verified nor read by --read-data")
     # ---- C05.e: check looks blobs up in the same index contents as restore does; unreadable files are errors ------
     from rules import C17, errprop
     C17.check_extend_sites(ctx, rep, "C05.e")
     errprop.run_iter(ctx, rep, "C05.f")
+    errprop.run_strict_readers(ctx, rep, "C05.f", r"^rustic_core::repository::Repository::<S>::check(_with_trees)?$|^rustic_core::commands::check::check_repository$", "check")
     from rules import C08
     rep.rule("C05.g", "check_pack cuts the pack into length field, header and blobs with exactly the recorded lengths (symbolic lengths)")
     C08.framing_rule(ctx, rep, "C05.g", which=("check_pack",))
